@@ -203,6 +203,29 @@ def _rev3(case):
         ok2, ip = c.lib("isprismatic/multi", lambda: Sm.isprismatic)
         if ok2:
             c.true("isprismatic/multi", list(map(bool, ip)) == [False, True], "isprismatic of [revolute, prismatic] gave %r" % (ip,))
+    # an object holding two different revolute unit twists: one angle per twist (both units), one line of action per twist
+    a2 = refs.unit(np.cross(ah, [0.0, 0.0, 1.0]) if abs(ah[2]) < 0.9 else np.cross(ah, [1.0, 0.0, 0.0]))
+    q2 = q + np.array([0.5, -1.0, 2.0])
+    ok, S2 = c.lib("Revolute/2", L.Twist3.Revolute, list(a2), list(q2))
+    if ok:
+        ok, M2 = c.lib("Twist3[S,S2]", lambda: L.Twist3([S, S2]))
+        if ok and c.true("Twist3[S,S2]/len", len(M2) == 2, "Twist3 of two twists holds %d" % len(M2)):
+            t2 = [th, case["thetas"][0]]
+            for unit, ang in (("rad", t2), ("deg", [x * 180.0 / math.pi for x in t2])):
+                okm, Xm = c.lib("multi/exp/" + unit, M2.exp, list(ang), unit)
+                if okm:
+                    A = _pose(c, "multi/exp/" + unit, Xm, L.SE3, 2)
+                    if A:
+                        for Ai, (ax_, qq_, t_) in zip(A, ((ah, q, t2[0]), (a2, q2, t2[1]))):
+                            R = refs.rodrigues(ax_, t_)
+                            c.eq("multi/exp/%s/value" % unit, Ai, refs.rt(R, qq_ - R @ qq_), tol, max(qs, float(np.max(np.abs(qq_)))))
+            okl, Lm = c.lib("multi/line", M2.line)
+            if okl and c.true("multi/line/len", hasattr(Lm, "data") and len(Lm) == 2, "line() of two twists gave %r" % (Lm,)):
+                for i, (ax_, qq_) in enumerate(((ah, q), (a2, q2))):
+                    wv = np.asarray(Lm.data[i], dtype=float)
+                    lw, lv = wv[3:], wv[:3]
+                    c.eq("multi/line/direction", np.cross(refs.unit(lw), ax_), np.zeros(3), tol, index=i)
+                    c.eq("multi/line/through_axis_point", np.cross(lw, qq_), lv, tol, max(1.0, float(np.linalg.norm(lw))) * max(qs, float(np.max(np.abs(qq_)))), index=i)
     # conversion to SE3
     ok, X1 = c.lib("SE3()", S.SE3)
     if ok:
